@@ -6,6 +6,7 @@ import LZ4V.Judge.Stream
 import LZ4V.Judge.Cli
 import LZ4V.Judge.WR
 import LZ4V.Judge.Sparse
+import LZ4V.Judge.FastR
 import Std.Data.HashMap
 /-!
 `lz4vmodel judge <casefile> <faildir>` : walk the case records written by a harness, run the specification / model
@@ -26,6 +27,7 @@ def dispatch (blobs : Std.HashMap Nat ByteArray) (r : Rec) : Verdict :=
   | 8 => judgeCliDecode r
   | 9 => (let x := judgeWR r; { fails := x.1, tags := x.2 })
   | 10 => (let x := judgeSparse r; { fails := x.1, tags := x.2 })
+  | 11 => (let x := judgeFastResetHistory r; { fails := x.1, tags := x.2 })
   | 100 => {}
   | _ => { fails := [("unknown_op", s!"op={r.op}")] }
 
